@@ -85,8 +85,13 @@ Theorem C13_failure_keeps_cache : forall verify skip evs,
 Proof. exact failure_keeps_cache. Qed.
 Print Assumptions C13_failure_keeps_cache.
 
-(* What counts as failed, and that a well-formed document without usable keys is a VALID
-   empty key set (it does replace the cache; this is not a lost cache). *)
+(* What counts as failed: transport error, any status but 200, and BadDoc = a body that is not
+   exactly one well-formed JSON document that is an object with a "keys" array (not JSON,
+   truncated, a complete document followed by more bytes, top-level array/string/number/null,
+   "keys" missing / null / not an array: a lone JWK, an error object, {}).  Size, extra
+   members and duplicate kids do not make a document malformed.  A well-formed document
+   whose keys are all skipped, or with "keys":[], is a VALID empty key set (it does replace
+   the cache; this is not a lost cache). *)
 Theorem C13_failed_or_malformed :
   parse TransportErr = None /\ (forall b, parse (Http false b) = None) /\
   (forall ok, parse (Http ok BadDoc) = None) /\
